@@ -36,6 +36,8 @@ pub struct HWait {
 }
 pub static mut HW_WAIT_CALLS: usize = 0;
 pub static mut HW_NOTIFY_CALLS: usize = 0;
+/// event-clock value of the last notify (to order it after the state change it announces)
+pub static mut HW_NOTIFY_STAMP: usize = 0;
 pub static mut HW_LAST_SEQ: usize = 0;
 pub static mut HW_LAST_AT: usize = 0;
 pub static mut HW_LAST_WC: usize = 0;
@@ -55,6 +57,8 @@ impl Wait for HWait {
     fn notify(&self) {
         unsafe {
             HW_NOTIFY_CALLS += 1;
+            rt::CLOCK += 1;
+            HW_NOTIFY_STAMP = rt::CLOCK;
         }
     }
     fn needs_notify(&self) -> bool {
